@@ -125,6 +125,7 @@ func checkC05(e *Engine, r *Report) {
 		r.Undecided("anchor:cache.container", "anchor", "type cache.container exists", "-", nil, "not found")
 		return
 	}
+	checkDrainCoversLive(e, r)
 	checkUpdateReasserts(e, r)
 	checkPendingBookkeeping(e, r)
 	getPendingRequest := r.Anchor(pkgCA, "container.getPendingRequest")
